@@ -13,7 +13,6 @@ import (
 	"encoding/base64"
 	"encoding/hex"
 	"fmt"
-	"os"
 	"runtime/debug"
 
 	"verif/common"
@@ -217,15 +216,8 @@ func call(f func() ([]byte, error)) (out []byte, err error, stack string) {
 func main() {
 	r := common.Start("C09", "model_checking")
 	// io.Copy inside golib allocates a 32 KiB buffer per call: tens of millions of short-lived
-	// buffers over a tiny live heap. Collect by a 1 GiB ceiling instead of by growth ratio.
-	debug.SetGCPercent(-1)
-	debug.SetMemoryLimit(1 << 30)
-	if v := os.Getenv("C09_GC"); v != "" {
-		var pc, mb int64
-		fmt.Sscanf(v, "%d:%d", &pc, &mb)
-		debug.SetGCPercent(int(pc))
-		debug.SetMemoryLimit(mb << 20)
-	}
+	// buffers over a tiny live heap, so let the heap grow further between collections.
+	debug.SetGCPercent(800)
 	saved := srand.Reader
 	defer func() { srand.Reader = saved }()
 	a := newAgg()
@@ -241,7 +233,6 @@ func main() {
 	streams(r, a)
 	srand.Reader = saved
 	opensslBonus(r)
-	stopProf()
 	a.flush(r)
 	r.Assume(
 		"small-scope: plaintext lengths 0..40 in three byte patterns, secrets \"\", \"k\" and a 40-byte one as string and []byte, AAD \"\" and \"a\", three salts supplied through crypto/rand.Reader (replaced by a script for the run and restored)",
